@@ -79,7 +79,9 @@ impl ThreadKey {
 		// safety: if this code changes, check to ensure the requirement for
 		//         the Drop implementation is still true
 		KEY.with(|key| {
-			key.try_lock().then_some(Self {
+			// not `then_some`: that would build a ThreadKey eagerly and drop it when the
+			// key is already taken, and dropping a ThreadKey releases the key
+			key.try_lock().then(|| Self {
 				phantom: PhantomData,
 			})
 		})
